@@ -353,6 +353,24 @@ class C20(Prop):
                 yield Case({"op": "bf_gen_bytes", "width": w, "raw": hx(raw)}, "valid" if ok else "invalid",
                            errclass=not ok, tag=tag)
 
+        # --- histories of assignments -------------------------------------------------------
+        def step(w: int) -> Dict[str, Any]:
+            r = rng.random()
+            lim = 1 << (8 * w)
+            if r < 0.35:
+                return {"int": rng.choice(value_pool(w, rng, 0)) if rng.random() < 0.5 else rng.randrange(lim)}
+            if r < 0.5:
+                return {"int": rng.choice(bad_values(w, rng))}
+            if r < 0.8:
+                n = rng.choice([w, w, w, w + 1, w + 2, w + 9])
+                return {"hex": hx(rng.choice(octet_pool(n, rng)) if rng.random() < 0.5 else rbytes(rng, n))}
+            return {"hex": hx(rbytes(rng, rng.choice([0, max(w - 1, 0), max(w - 2, 0), w // 2])))}
+
+        for k in range(12000 if thorough else 1500):
+            w = WIDTHS[k % 5]
+            v0 = rng.choice(value_pool(w, rng, 0)) if k % 2 else rng.randrange(1 << (8 * w))
+            yield Case({"op": "bf_seq", "width": w, "value": v0, "via_gen": bool(k & 8),
+                        "steps": [step(w) for _ in range(1 if k < 400 else rng.randint(2, 8))]}, "valid", tag=f"history-w{w}")
         # --- exhaustive: widths 0, 1, 2 -----------------------------------------------------
         yield new_case(0, 0, "exhaustive-w0")
         yield Case({"op": "bf_empty", "width": 0, "default": True}, "valid", tag="exhaustive-w0")
@@ -481,30 +499,13 @@ class C20(Prop):
             yield Case({"op": "bf_eq", "w1": w1, "v1": v1, "w2": w2, "v2": v2, "via_gen": rng.random() < 0.5},
                        "valid", tag="eq-random")
 
-        # --- histories of assignments -------------------------------------------------------
-        def step(w: int) -> Dict[str, Any]:
-            r = rng.random()
-            lim = 1 << (8 * w)
-            if r < 0.35:
-                return {"int": rng.choice(value_pool(w, rng, 0)) if rng.random() < 0.5 else rng.randrange(lim)}
-            if r < 0.5:
-                return {"int": rng.choice(bad_values(w, rng))}
-            if r < 0.8:
-                n = rng.choice([w, w, w, w + 1, w + 2, w + 9])
-                return {"hex": hx(rng.choice(octet_pool(n, rng)) if rng.random() < 0.5 else rbytes(rng, n))}
-            return {"hex": hx(rbytes(rng, rng.choice([0, max(w - 1, 0), max(w - 2, 0), w // 2])))}
-
-        for k in range(12000 if thorough else 1500):
-            w = WIDTHS[k % 5]
-            v0 = rng.choice(value_pool(w, rng, 0)) if k % 2 else rng.randrange(1 << (8 * w))
-            yield Case({"op": "bf_seq", "width": w, "value": v0, "via_gen": bool(k & 8),
-                        "steps": [step(w) for _ in range(rng.randint(1, 8))]}, "valid", tag=f"history-w{w}")
         # single assignments from every pool value, by integer and by octets, on widths 4 and 8
         for w in (4, 8):
             vals = value_pool(w, rng)
             yield Case({"op": "bf_seq", "width": w, "value": 0, "steps": [{"int": v} for v in vals]}, "valid", tag=f"history-pool-w{w}")
             yield Case({"op": "bf_seq", "width": w, "value": vals[-1],
                         "steps": [{"hex": hx(v.to_bytes(w, "big") + rbytes(rng, v % 3))} for v in vals]}, "valid", tag=f"history-pool-w{w}")
+
 
         # --- conversion helpers -------------------------------------------------------------
         for w in VWIDTHS:
